@@ -9,6 +9,7 @@ are the ones the driver executes against the real `BinaryPolynomial` / `BinaryCo
 import OFV.Proofs.C09
 import OFV.Proofs.C09WF
 import OFV.Proofs.C09Parity
+import OFV.Proofs.C09Parse
 
 namespace OFV.C09
 open OFV.Model.C09 OFV.Spec.C09
@@ -20,8 +21,8 @@ theorem eval_sum_rule (w : Nat → Bool) (p : Poly) (s : Mono) :
     evalPoly w (sumRule p s) = xor (evalPoly w p) (evalMono w s) :=
   eval_sumRule w p s
 
-/-- `p += q` (distinct objects), hence `p + q`: XOR of the values, for all polynomials
-(no canonical-form hypothesis is needed). -/
+/-- `p += q` (the code iterates over a snapshot of `q.terms`, so `q` may be `p` itself), hence
+`p + q`: XOR of the values, for all polynomials (no canonical-form hypothesis is needed). -/
 theorem eval_add (w : Nat → Bool) (p q : Poly) :
     evalPoly w (iadd p q) = xor (evalPoly w p) (evalPoly w q) := eval_iadd w p q
 
@@ -59,6 +60,18 @@ theorem eval_pow (w : Nat → Bool) (p : Poly) (k : Nat) :
 /-- `_canonical_term` does not change the value of a monomial. -/
 theorem eval_canonical_term (w : Nat → Bool) (t : Mono) : evalMono w (canonTerm t) = evalMono w t :=
   evalMono_canonTerm w t
+
+/-- `BinaryPolynomial('… + …')` (the tokens as the harness cuts them, `tokVal`: a constant is its
+parity, `w<i>` the variable): when every summand has at least one token, the constructed
+polynomial is the XOR over the summands of the product of their tokens.  (All decoders of
+binary_codes.py are built through this constructor.) -/
+theorem string_constructor_sound (w : Nat → Bool) (sm : List (List Tok)) (p : Poly)
+    (h : ofString sm = .ok p) (hne : ∀ toks ∈ sm, toks ≠ []) :
+    evalPoly w p = sm.foldr (fun toks a => xor (summandVal w toks) a) false :=
+  ofString_sound' w sm p h hne
+
+example : ofString [[.var 1, .const 1, .var 2], [.const 3], [.var 1, .const 0]] = .ok [[some 1, some 2], [none]] := by
+  rfl
 
 /-! ## canonical form (the invariant the `fix:` commit 35a1f8fb established)
 
@@ -122,12 +135,6 @@ theorem evaluate_spec (p : Poly) (bl : List Nat) (hp : WF p) (hb : ∀ b ∈ bl,
     rw [← key]
     have := Nat.mod_two_eq_zero_or_one S
     rcases this with h | h <;> simp [h]
-
-/-- Model witness of the known finding `C09-iadd-alias`: `a += a` (Python iterates over the
-list it mutates) leaves `w1` for `a = w0 + w1 + w2`, although `a + a = 0` (`add_self`). -/
-theorem iadd_alias_counterexample :
-    iaddAlias [[some 0], [some 1], [some 2]] = [[some 1]] ∧
-    iadd [[some 0], [some 1], [some 2]] [[some 0], [some 1], [some 2]] = [] := by decide
 
 example : WF [[some 1, some 8], [none]] :=
   ⟨by decide, by
@@ -210,10 +217,10 @@ theorem encode_injective (c : Code) (v v' : List Nat) (hl : v.length = c.nm) (hl
 theorem jw_code_valid (n : Nat) (c : Code) (h : jordanWignerCode n = .ok c) (v : List Nat)
     (hb : ∀ x ∈ v, x ≤ 1) : ValidOn c v := jw_valid' n c h v hb
 
-/-- `parity_code(n)`, `n ≥ 2` (`n = m + 2`): the reshaped decoder matrix inverts the prefix
-sums, for every `n` and every 0/1 vector.  (`parity_code(1)` raises: known finding.) -/
-theorem parity_code_valid (m : Nat) (c : Code) (h : parityCode (m + 2) = .ok c) (v : List Nat)
-    (hlen : v.length = m + 2) (hb : ∀ x ∈ v, x ≤ 1) : ValidOn c v := parity_valid' m c h v hlen hb
+/-- `parity_code(n)`: the bidiagonal decoder matrix `eye(n) + eye(n, k=-1)` inverts the prefix
+sums of the lower-triangular encoder, for every `n` and every 0/1 vector. -/
+theorem parity_code_valid (n : Nat) (c : Code) (h : parityCode n = .ok c) (v : List Nat)
+    (hlen : v.length = n) (hb : ∀ x ∈ v, x ≤ 1) : ValidOn c v := parity_valid' n c h v hlen hb
 
 /-- `checksum_code(n, odd)` decodes what it encodes on every 0/1 vector whose Hamming weight
 has the parity `odd`, for every `n`. -/
@@ -262,7 +269,7 @@ theorem test_w1ba_valid_small :
 example : (jordanWignerCode 3).toBool = true := by decide
 example (c : Code) (h : jordanWignerCode 3 = .ok c) : ValidOn c [1, 0, 1] :=
   jw_code_valid 3 c h _ (by decide)
-example : (parityCode 4).toBool = true := by decide
+example : (parityCode 4).toBool = true ∧ (parityCode 1).toBool = true := by decide
 example : (checksumCode 4 true).toBool = true := by decide
 
 example : evalPoly (fun i => i == 1) (imul [[some 0], [some 1]] [[some 1], [none]]) = false := by decide
